@@ -140,6 +140,33 @@ def check_wire(cx, wire: bytes, rng, routes=("typed", "plain"), find=True, sampl
             if extra is not None:
                 cx.cov["typed_undeclared_checked"] += 1
                 cmp_avp_lists(cx, extra, und, "typed-undeclared", replay)
+        # two decodes of the same bytes are two messages: this one's header and AVPs are overwritten through their
+        # public attributes (what a relay does before passing a message on), then the same bytes are decoded again
+        if cx.evals % 3 == 0:
+            try:
+                hd = m.header
+                hd.hop_by_hop_identifier = (hd.hop_by_hop_identifier ^ 0x0badcafe) & 0xffffffff
+                hd.end_to_end_identifier = (hd.end_to_end_identifier + 1) & 0xffffffff
+                hd.command_flags ^= 0x30
+                hd.application_id = (hd.application_id + 7) & 0xffffffff
+                for a in list(m.avps if generic else (getattr(m, "_additional_avps", None) or []))[:8]:
+                    a.payload = b"\x00\x00\x00\x2a"
+                m2 = Message.from_bytes(wire, plain_msg=True) if plain else Message.from_bytes(wire)
+            except Exception:
+                m2 = None
+            cx.cov["second_decodes_after_overwriting_first"] = cx.cov.get("second_decodes_after_overwriting_first", 0) + 1
+            if m2 is not None:
+                h2 = m2.header
+                got = (h2.version, h2.length, h2.command_flags, h2.command_code, h2.application_id,
+                       h2.hop_by_hop_identifier, h2.end_to_end_identifier)
+                if got != rh.tup():
+                    cx.witness("decode.second_decode_shares_state_with_first.header",
+                               {"route": route, "got": got, "wire": rh.tup()}, replay)
+                elif generic or plain:
+                    n0 = len(cx.wit)
+                    cmp_avp_lists(cx, m2.avps, rtree, route, replay)
+                    for w in cx.wit[n0:]:
+                        w["key"] = "decode.second_decode_shares_state_with_first.avps"
         if sample and len(cx.samples) < 3:
             cx.samples.append({"route": route, "class": type(m).__name__, "header": repr(rh),
                                "top_level_avps": len(rtree), "bytes": len(wire), "wire_head": wire[:48].hex()})
